@@ -146,6 +146,10 @@ def mkif(c, a, b):
 
 
 def cmp_fold(op, a, b):
+    if a == b and op in ('eq', 'le', 'ge'):
+        return ('true',)
+    if a == b and op in ('ne', 'lt', 'gt'):
+        return ('false',)
     if isnum(a) and isnum(b):
         x, y = a[1], b[1]
         r = {'lt': x < y, 'le': x <= y, 'gt': x > y, 'ge': x >= y, 'eq': x == y, 'ne': x != y}[op]
